@@ -88,7 +88,8 @@ ExtremeFailed(e, P) ==
                {c \in {P \o ".even_dof_closed_form"} :
                   \/ (HasLoB(e) /\ ~okb(FDy(e.out.iv.lo), "lo"))
                   \/ (HasHiB(e) /\ ~okb(FDy(e.out.iv.hi), "hi"))})
-ExtremeClauses(e, P) == {P \o ".no_panic", P \o ".shape", P \o ".even_dof_closed_form", P \o ".extreme_level." \o e.conf.kind}
+ExtremeClauses(e, P) == {P \o ".no_panic", P \o ".shape", P \o ".even_dof_closed_form"}
+                        \cup {P \o (IF "offgrid" \in DOMAIN e THEN ".off_grid_level." ELSE ".extreme_level.") \o e.conf.kind}
 
 \* ---------------------------------------------------------------- paired / unpaired (C04)
 \* explicit aligned samples (every block has count 1): run-length sample of the differences
